@@ -308,7 +308,102 @@ def trr_reader(ctx):
             ctx.bad("R-13.3", c, "read_remaining_trr (which has no size guards) is reachable while mdrun may still be writing")
 
 
+def _fmt_size(e, consts):
+    """Byte size of a struct format expression; variable parts are replaced by
+    their largest repository-known value."""
+    import struct
+
+    def text(x):
+        if isinstance(x, ast.Constant) and isinstance(x.value, str):
+            return x.value
+        if isinstance(x, ast.JoinedStr):
+            out = ""
+            for v in x.values:
+                if isinstance(v, ast.Constant):
+                    out += v.value
+                else:
+                    inner = ast.unparse(v.value)
+                    if inner == "endian":
+                        out += ""
+                    elif "slen" in inner:
+                        ver = consts.get("_TRR_VERSION")
+                        out += str(len(ver.value)) if isinstance(ver, ast.Constant) else "0"
+                    else:
+                        raise ValueError(inner)
+            return out
+        if isinstance(x, ast.Call) and isinstance(x.func, ast.Attribute) and x.func.attr == "format":
+            base = x.func.value
+            if isinstance(base, ast.Name) and base.id in consts and isinstance(consts[base.id], ast.Constant):
+                return consts[base.id].value.replace("{}", "")
+        if isinstance(x, ast.Name) and x.id in consts and isinstance(consts[x.id], ast.Constant):
+            return consts[x.id].value
+        raise ValueError(ast.unparse(x))
+
+    t = text(e).lstrip("<>=!@")
+    return struct.calcsize(">" + t)
+
+
+def trr_head_size(ctx):
+    """The size used to decide that a first header is on disk covers the largest header."""
+    rid = "R-13.5"
+    tree = ctx.tree
+    mod = tree.mod(GROMACS)
+    f = tree.func(GROMACS, "read_trr_header")
+    fl = flow_of(f)
+    total = 0
+    parts = []
+    for c in [c for c in walk_local(f) if isinstance(c, ast.Call) and last_name(c) == "read_struct_buff"]:
+        fmt = c.args[1] if len(c.args) > 1 else None
+        sizes = []
+        cands = [fmt]
+        if isinstance(fmt, ast.Name):
+            cands = [n for k, n, _, _ in fl.sources(fmt, fl.cfg.node_of(c)) if k == "expr"]
+        for e in cands:
+            try:
+                sizes.append(_fmt_size(e, mod.consts))
+            except Exception as exc:
+                raise AnalysisError(f"R-13.5: cannot size struct format {short(e, 40)}: {exc}")
+        if not sizes:
+            raise AnalysisError("R-13.5: a read_struct_buff format could not be resolved")
+        total += max(sizes)
+        parts.append(max(sizes))
+    if "TRR_HEAD_SIZE" not in mod.consts:
+        raise AnalysisError("R-13.5: TRR_HEAD_SIZE not defined")
+    e = mod.consts["TRR_HEAD_SIZE"]
+    val = None
+    if isinstance(e, ast.Constant) and isinstance(e.value, int):
+        val = e.value
+    elif isinstance(e, ast.Call) and dotted(e.func) == "struct.calcsize" and e.args:
+        a = e.args[0]
+        try:
+            if isinstance(a, ast.JoinedStr):
+                txt = ""
+                for v in a.values:
+                    if isinstance(v, ast.Constant):
+                        txt += v.value
+                    else:
+                        inner = v.value
+                        if isinstance(inner, ast.Call) and dotted(inner.func) == "len" and isinstance(inner.args[0], ast.Name) and isinstance(mod.consts.get(inner.args[0].id), ast.Constant):
+                            txt += str(len(mod.consts[inner.args[0].id].value))
+                        else:
+                            raise ValueError(ast.unparse(inner))
+            else:
+                txt = a.value
+            import struct
+            val = struct.calcsize(txt)
+        except Exception as exc:
+            raise AnalysisError(f"R-13.5: cannot evaluate TRR_HEAD_SIZE = {short(e, 60)}: {exc}")
+    if val is None:
+        raise AnalysisError(f"R-13.5: TRR_HEAD_SIZE is not a constant the analysis can fold: {short(e, 60)}")
+    if val >= total:
+        ctx.ok(rid, e, f"TRR_HEAD_SIZE = {val} >= largest header read by read_trr_header = {total} bytes (parts {parts}, double precision)")
+    else:
+        ctx.bad(rid, e, f"TRR_HEAD_SIZE = {val} is smaller than the largest header read_trr_header can read ({total} bytes = {parts}, double precision): "
+                "the first header of a growing file is read when only part of it is on disk", construct=f"TRR_HEAD_SIZE = {short(e, 60)}")
+
+
 def run(ctx):
+    ctx.rule("R-13.5", "the byte count that gates the first TRR header read covers the largest header (struct formats of read_trr_header, double precision)", floor=1)
     ctx.rule("R-13.1", "every parse of current-line text is dominated by a completeness guard (newline / sentinel) whose failing edge returns without committing", floor=6)
     ctx.rule("R-13.2", "the read position is committed only under the frame-complete condition (or the documented lone-newline resync)", floor=3)
     ctx.rule("R-13.3", "TRR reads while mdrun runs are dominated by fresh size guards; bytes_read advances by the returned counts", floor=3)
@@ -321,6 +416,7 @@ def run(ctx):
         ctx.attempt(text_reader, ctx, f)
         ctx.attempt(handed_out_buffers, ctx, "R-13.4", f, "returned frame owns its data")
     ctx.attempt(trr_reader, ctx)
+    ctx.attempt(trr_head_size, ctx)
 
 
 VARIANTS = [
@@ -342,6 +438,9 @@ VARIANTS = [
     B("c13-lammps-shared-buffers", ENGPARTS, "            coordinate_snapshot = np.zeros((N_atoms, 6), dtype=np.float64)\n            box_snapshot = np.zeros((3, 3), dtype=np.float64)\n    return trajectory, box", "    return trajectory, box", "R-13.4", why="seeded C13_a"),
     B("c13-xyz-shared-list", ENGPARTS, "            trajectory.append(np.array(frame_coordinates, dtype=np.float64))", "            trajectory.append(frame_coordinates)", "R-13.4", also=[(ENGPARTS, "            frame_coordinates = []\n\n    return trajectory", "            frame_coordinates.clear()\n\n    return trajectory")]),
     K("c13-keep-lammps-alloc-copy", ENGPARTS, "            trajectory.append(coordinate_snapshot)\n            box.append(box_snapshot)", "            trajectory.append(coordinate_snapshot.copy())\n            box.append(box_snapshot.copy())"),
+    B("c13-trr-head-size-single-precision", GROMACS, "TRR_HEAD_SIZE = 1000", 'TRR_HEAD_SIZE = struct.calcsize(f">3i{len(_TRR_VERSION)}s13i2f")', "R-13.5", control=True, why="seeded C13_b"),
+    B("c13-trr-head-size-small", GROMACS, "TRR_HEAD_SIZE = 1000", "TRR_HEAD_SIZE = 64", "R-13.5"),
+    K("c13-keep-trr-head-size-exact", GROMACS, "TRR_HEAD_SIZE = 1000", 'TRR_HEAD_SIZE = struct.calcsize(f">3i{len(_TRR_VERSION)}s13i2d")'),
     K("c13-keep-xyz-endswith", ENGPARTS, 'if len(spl) != 4 or line[-1] != "\\n":', 'if len(spl) != 4 or not line.endswith("\\n"):'),
     K("c13-keep-lammps-sentinel-swapped", ENGPARTS, "spl[0] != spl[-1]", "spl[-1] != spl[0]"),
     K("c13-keep-trr-sum-commuted", GROMACS, "if size >= self.bytes_read + header_size:", "if size >= header_size + self.bytes_read:"),
